@@ -428,7 +428,7 @@ def hierarchical_part(ctx):
     def one(item):
         name, consts = item
         cfg = write_cfg(ctx.scratch / ('hr17_%s.cfg' % name), consts, invariants=['FunChar', 'BasisOK'], view='View')
-        return name, consts, ctx.tlc('HRepr', cfg, workers=3, timeout=3000)
+        return name, consts, ctx.tlc('HRepr', cfg, workers=10 if consts['D'] == 2 else 3, timeout=3000)
     runs = [pool.submit(one, it) for it in cfgs]
     for w in warm:
         w.result()
